@@ -1202,7 +1202,7 @@ int vorbis_encode_ctl(vorbis_info *vi,int number,void *arg){
         const void *new_template;
         double new_base=0.;
         int *iarg=(int *)arg;
-        hi->coupling_p=((*iarg)!=0);
+        int coupling_p=((*iarg)!=0);
 
         /* Fetching a new template can alter the base_setting, which
            many other parameters are based on.  Right now, the only
@@ -1210,12 +1210,14 @@ int vorbis_encode_ctl(vorbis_info *vi,int number,void *arg){
            by an encctl is the lowpass, so that is explictly flagged
            to not be overwritten when we fetch a new template and
            recompute the dependant settings */
-        new_template = get_setup_template(hi->coupling_p?vi->channels:-1,
+        new_template = get_setup_template(coupling_p?vi->channels:-1,
                                           vi->rate,
                                           hi->req,
                                           hi->managed,
                                           &new_base);
+        /* nothing is changed unless the request can be honoured */
         if(!new_template)return OV_EIMPL;
+        hi->coupling_p=coupling_p;
         hi->setup=new_template;
         hi->base_setting=new_base;
         vorbis_encode_setup_setting(vi,vi->channels,vi->rate);
